@@ -30,9 +30,25 @@ def install(E):
         if s.c is None:
             e.P.keep.append(s.t); jt(e)[s.t.get_id()] = (fmt, tree)
         else: jt(e)[('c', s.c)] = (fmt, tree)
+    WS = ' \t\r\n'
+    def peel_ws(e, s):
+        """strip literal white space that was concatenated around a string (insignificant around a JSON value)"""
+        while s.c is None and is_app_of(s.t, 'sconcat'):
+            h, tl = e.tostr(s.t.arg(0)), e.tostr(s.t.arg(1))
+            if tl.c is not None and tl.c.strip(WS) == '': s = h
+            elif h.c is not None and h.c.strip(WS) == '': s = tl
+            else: break
+        return s
+    E.peel_ws = peel_ws
     def tree_of(e, s):
         if s.c is not None: return jt(e).get(('c', s.c))
-        return jt(e).get(s.t.get_id())
+        r = jt(e).get(s.t.get_id())
+        if r is None:
+            p = peel_ws(e, s)
+            if p is not s and p.c is None:
+                r = jt(e).get(p.t.get_id())
+                if r is not None and r[0] != 'json': r = None      # only JSON text tolerates surrounding white space
+        return r
     E.json_attach = attach; E.json_tree_of = tree_of
 
     def has_method(e, t, name):
